@@ -32,7 +32,7 @@ func init() {
 		genC04(g, c04Case, g.pick(5, 6), 16)
 		genC04b(g)
 	}
-	props["C16"] = func(g *Gen) { c16Concurrent(g); genC04(g, c16Case, 6, 8) }
+	props["C16"] = func(g *Gen) { c16OtherNaming(g); c16Concurrent(g); genC04(g, c16Case, 6, 8) }
 	replays["C04"] = func(g *Gen, f []string) {
 		if len(f) >= 2 && f[0] == "c04b" {
 			c04bCase(g, f[1])
@@ -908,4 +908,24 @@ func c04CLIProbe(g *Gen) {
 			g.Count("cli-search-stdout")
 		}
 	}
+}
+
+// c16OtherNaming: the naming passes are public and parameterised; a caller that named values with
+// another width or format earlier in the process (outcome not judged) must not change what Build names
+// afterwards (name caches keyed by value only).
+func c16OtherNaming(g *Gen) {
+	for _, f := range []struct {
+		k      int
+		format string
+	}{{8, "_%x"}, {4, "v%d"}, {12, "b%b_"}} {
+		f := f
+		safe(func() {
+			p, err := acc.Decompile(c04Random(g, 40))
+			if err != nil {
+				return
+			}
+			_ = pass.Exec(p, pass.NameBinaryValues(f.k, f.format), pass.NameBinaryRuns("r%d_"))
+		})
+	}
+	g.Count("other-naming-calls")
 }
